@@ -216,12 +216,19 @@ Proof.
   - left. split; [exact KA|]. destruct (t_active (ka_tm s)); [specialize (K2 eq_refl); discriminate|reflexivity].
 Qed.
 
+Lemma take_payload_err_K eof s : KAI s -> KAI (take_payload_err eof (set_read_disc true s)).
+Proof.
+  intros [K1 K2]. unfold take_payload_err. destruct (payload (set_read_disc true s)) eqn:P; [|split; auto].
+  split; cbn; [|exact K2]. intro KA. destruct (K1 KA) as (A & B & C & D & E). auto.
+Qed.
+
 Theorem step_K c e s : KAI s -> KAI (step c e s).
 Proof.
   intro K. unfold step. destruct (negb (res s =? 0)); [exact K|]. destruct e.
   - revert K; apply KAI_frame; unfold env_step; repeat bm; reflexivity.
   - unfold poll_graceful. destruct (sig_armed s && sig); [|exact K].
-    apply Off_KAI. unfold Off. destruct (ka_tm s) eqn:T; unfold t_enabled; split; try reflexivity.
+    cbv zeta. change (ka_tm (set_draining true (set_keep_alive false (set_sig_armed false s)))) with (ka_tm s).
+    apply Off_KAI. unfold Off. destruct (ka_tm s) eqn:T; cbn [t_enabled]; split; try reflexivity.
     change (t_active (ka_tm s) = false). rewrite T. reflexivity.
   - (* head timer *)
     unfold poll_head_timer. destruct (t_ready (head_t s) (now s)); [|exact K].
@@ -238,7 +245,7 @@ Proof.
         unfold send_response, close_unread, encode_head, complete_flags, finish_hook, add_trace. rewrite p, dr. cbn [orb andb].
         rewrite N.eqb_refl. split; cbn; repeat bm; cbn; rewrite ?a, ?b, ?cc; auto. }
       repeat bm; try (revert K; apply KAI_frame; reflexivity); apply X; cbn; auto.
-  - revert K; apply KAI_frame; unfold poll_ka_timer; repeat bm; try reflexivity.
+  - destruct K as [K1 K2]. unfold poll_ka_timer. repeat bm; split; cbn; auto; discriminate.
   - revert K; apply KAI_frame; unfold poll_sd_timer; repeat bm; reflexivity.
   - destruct (linger s); [|exact K]. unfold poll_linger.
     destruct (flush wblock s) as [s1 ok] eqn:E1.
@@ -266,7 +273,7 @@ Proof.
         assert (Rx : rbuf x = []) by (repeat bm; cbn; exact R0);
         assert (Kx : KAI x) by (revert K1; apply KAI_frame; repeat bm; reflexivity);
         rewrite (poll_request_nil c x Rx); set (x0 := x) in * end.
-      destruct d; [|exact Kx]. revert Kx; apply KAI_frame; unfold take_payload_err; repeat bm; reflexivity.
+      destruct d; [|exact Kx]. apply take_payload_err_K. exact Kx.
     + (* bytes were read: KEEP_ALIVE and its timer are cleared before anything is decoded *)
       cbn [negb andb].
       match goal with |- context [poll_request c ?x] => assert (Ox : Off x); [|pose proof (poll_request_Off c x Ox) as O2; set (x0 := x) in *] end.
@@ -279,7 +286,7 @@ Proof.
     assert (K2 : KAI (if keep_alive s1 && finished s1 then match ka c with KaTimeout d => set_ka_tm (arm d s1) s1 | _ => s1 end else s1)).
     { destruct (keep_alive s1) eqn:KA; cbn [andb]; [|exact K1]. destruct (finished s1); [|exact K1].
       destruct (ka c); try exact K1. destruct K1 as [A B]. split; cbn; auto. }
-    unfold flush. repeat bm; cbn; try exact K2. revert K2; apply KAI_frame; reflexivity.
+    unfold flush. repeat bm; cbn; exact K2.
   - revert K; apply KAI_frame; unfold epilogue; repeat bm; reflexivity.
 Qed.
 
@@ -298,4 +305,147 @@ Proof.
   assert (T : t_active (ka_tm s) = false).
   { destruct (t_active (ka_tm s)); [|reflexivity]. specialize (K2 eq_refl). destruct (K1 K2) as (D & M & _). destruct B; contradiction. }
   split; [exact T|]. unfold poll_ka_timer, t_ready. destruct (ka_tm s); try reflexivity. discriminate.
+Qed.
+
+(* ------------------------------------------------------------------ a request read in time is dispatched *)
+Lemma handle_request_starts c r z : exists l, trace (handle_request c r z) = trace z ++ TStart r :: l.
+Proof.
+  unfold handle_request.
+  destruct (poll_handler (rq_id r) (start_service c false r z)) as [s1 out] eqn:P.
+  pose proof (poll_handler_trace _ _ _ _ P) as T.
+  assert (T1 : trace s1 = trace z ++ [TStart r]) by (rewrite T; reflexivity).
+  destruct out as [[[k b] p]|].
+  - rewrite send_response_trace, T1, <- app_assoc. cbn. eexists. reflexivity.
+  - exists []. exact T1.
+Qed.
+
+Lemma decode_loop_dispatches c f z x more upd :
+  rbuf z = IReq x :: more -> c_pl z = false -> dstate z = SNone ->
+  exists l, trace (fst (decode_loop (S f) c z upd)) = trace z ++ TDecode x :: TStart x :: l.
+Proof.
+  intros R P D. cbn [decode_loop]. rewrite R, P.
+  change (dstate (set_rbuf more z)) with (dstate z). rewrite D. cbn [is_none negb andb].
+  rewrite andb_false_r.
+  match goal with |- context [handle_request c x ?y] =>
+    assert (Ty : trace y = trace z ++ [TDecode x]) by (unfold set_ctx, add_trace; repeat bm; reflexivity);
+    assert (Dy : is_none (dstate y) = true) by (unfold set_ctx, add_trace; repeat bm; cbn; change (is_none (dstate z) = true); rewrite D; reflexivity);
+    set (y0 := y) in * end.
+  rewrite Dy. destruct (handle_request_starts c x y0) as [l1 T1].
+  assert (G : forall w, Mono (handle_request c x y0) w -> exists l, trace w = trace z ++ TDecode x :: TStart x :: l).
+  { intros w [l2 [T2 _]]. rewrite T2, T1, Ty, <- !app_assoc. cbn. eexists. reflexivity. }
+  bm; apply G; [apply Mono_refl|apply decode_loop_M].
+Qed.
+
+(* an idle keep-alive connection *)
+Definition Idle (s : st) : Prop :=
+  res s = 0 /\ keep_alive s = true /\ dstate s = SNone /\ messages s = [] /\ payload s = None /\ c_pl s = false /\
+  rbuf s = [] /\ sock s = [] /\ read_disc s = false /\ linger s = false /\ shutdown s = false /\ draining s = false /\
+  started s = true /\ t_active (head_t s) = false /\ t_active (sd_t s) = false.
+
+(* the read phase of a poll that finds a complete request head on an idle connection clears
+   KEEP_ALIVE and its timer and dispatches the request *)
+Lemma read_phase_dispatches c z x more :
+  keep_alive z = true -> read_disc z = false -> sock z = IReq x :: more -> rbuf z = [] -> c_pl z = false ->
+  dstate z = SNone -> draining z = false -> messages z = [] -> started z = true ->
+  exists l, trace (read_phase c z) = trace z ++ TDecode x :: TStart x :: l.
+Proof.
+  intros KA RD SK RB PL D DR M ST. unfold read_phase, read_available. rewrite RD, SK, RB. cbn [is_nil negb app].
+  set (z1 := unfinish (set_sock [] (set_rbuf (IReq x :: more) z))).
+  assert (F1 : rbuf z1 = IReq x :: more /\ c_pl z1 = false /\ dstate z1 = SNone /\ draining z1 = false /\ messages z1 = [] /\
+               started z1 = true /\ read_disc z1 = false /\ trace z1 = trace z /\ keep_alive z1 = true).
+  { subst z1. unfold unfinish. bm; cbn; repeat split; auto. }
+  assert (F1u : rbuf (unfinish z1) = IReq x :: more /\ c_pl (unfinish z1) = false /\ dstate (unfinish z1) = SNone /\ draining (unfinish z1) = false /\ messages (unfinish z1) = [] /\
+               started (unfinish z1) = true /\ read_disc (unfinish z1) = false /\ trace (unfinish z1) = trace z /\ keep_alive (unfinish z1) = true).
+  { unfold unfinish. bm; cbn; exact F1. }
+  assert (G : forall y d, rbuf y = IReq x :: more /\ c_pl y = false /\ dstate y = SNone /\ draining y = false /\ messages y = [] /\
+               started y = true /\ read_disc y = false /\ trace y = trace z /\ keep_alive y = true ->
+     exists l, trace (let s := if negb (is_nil (rbuf y)) && keep_alive y then set_ka_tm TInactive (set_keep_alive false y) else y in
+                      let s := if started s then s else (let s := set_started true s in if req_to c =? 0 then s else set_head_t (arm (req_to c) s) s) in
+                      let s := fst (poll_request c s) in
+                      if d : bool then take_payload_err true (set_read_disc true s) else s) = trace z ++ TDecode x :: TStart x :: l).
+  { intros y d (a1 & a2 & a3 & a4 & a5 & a6 & a7 & a8 & a9). cbv zeta. rewrite a1, a9. cbn [is_nil negb andb].
+    change (started (set_ka_tm TInactive (set_keep_alive false y))) with (started y). rewrite a6.
+    set (y1 := set_ka_tm TInactive (set_keep_alive false y)).
+    assert (PR : exists l, trace (fst (poll_request c y1)) = trace z ++ TDecode x :: TStart x :: l).
+    { unfold poll_request. change (draining y1) with (draining y). change (messages y1) with (messages y). change (read_disc y1) with (read_disc y).
+      rewrite a4, a5, a7. cbn [andb]. change (MAXP <=? lenN []) with false. cbn [orb].
+      destruct (decode_loop_dispatches c (length (rbuf y1)) y1 x more false) as [l T]; auto.
+      exists l. rewrite T. change (trace y1) with (trace y). rewrite a8. reflexivity. }
+    destruct PR as [l T]. destruct d; [|exists l; exact T].
+    exists l. rewrite <- T. unfold take_payload_err; repeat bm; reflexivity. }
+  destruct (sock_end z).
+  - apply (G z1 false F1).
+  - apply (G (unfinish z1) true F1u).
+  - apply (G z1 true F1).
+Qed.
+
+(* the remainder of a poll after the read phase only extends the history *)
+Lemma poll_after_read_M c r : forall s5,
+  Mono s5 (if negb (res s5 =? 0) then s5
+           else let s6 := response_phase c (r_wblock r) s5 in
+                if negb (res s6 =? 0) then s6
+                else let '(s7, again) := epilogue c s6 in if again then poll_body 3 c r s7 else s7).
+Proof.
+  intro s5. destruct (negb (res s5 =? 0)) eqn:R5; [apply Mono_refl|].
+  assert (R5' : res s5 = 0) by (destruct (res s5 =? 0) eqn:E; [apply N.eqb_eq; exact E|discriminate]).
+  pose proof (step_M c (EResponsePhase (r_wblock r)) s5) as M6. unfold step in M6. rewrite R5' in M6. cbn in M6.
+  cbv zeta. set (s6 := response_phase c (r_wblock r) s5) in *.
+  destruct (negb (res s6 =? 0)) eqn:R6; [exact M6|].
+  assert (R6' : res s6 = 0) by (destruct (res s6 =? 0) eqn:E; [apply N.eqb_eq; exact E|discriminate]).
+  pose proof (step_M c EEpilogue s6) as M7. unfold step in M7. rewrite R6' in M7. cbn in M7.
+  destruct (epilogue c s6) as [s7 again] eqn:E7. cbn in M7.
+  destruct again; [|eapply Mono_trans; eauto].
+  assert (shutdown s7 = true /\ res s7 = 0) as [S7 R7].
+  { unfold epilogue in E7. repeat bmh E7; inv E7; cbn; auto. }
+  apply (poll_body_shutdown c (Mono s5)); auto.
+  - intros e z Mz. eapply Mono_trans; [exact Mz|apply step_M].
+  - eapply Mono_trans; eauto.
+Qed.
+
+Lemma poll_body_S f c r s : poll_body (S f) c r s =
+    let s := poll_graceful (r_signal r) s in
+    let s := poll_head_timer c s in
+    let s := poll_ka_timer c s in
+    let s := poll_sd_timer s in
+    if negb (res s =? 0) then s
+    else if linger s then poll_linger c (r_wblock r) s
+    else if shutdown s then shutdown_io c (r_wblock r) (r_sdpend r) s
+    else
+      let s := read_phase c s in
+      if negb (res s =? 0) then s
+      else
+        let s := response_phase c (r_wblock r) s in
+        if negb (res s =? 0) then s
+        else
+          let '(s, again) := epilogue c s in
+          if again then poll_body f c r s else s.
+Proof. reflexivity. Qed.
+
+(* C06, second half of the keep-alive claim, for EVERY idle keep-alive state and EVERY round that
+   brings a complete request head while the clock of the poll is before the keep-alive deadline *)
+Theorem ka_request_in_time_is_served c r s x more :
+  Idle s -> r_arrive r = IReq x :: more -> sig_armed s && r_signal r = false ->
+  t_ready (ka_tm s) (now s + r_adv r) = false ->
+  exists l, trace (poll c r s) = trace s ++ TDecode x :: TStart x :: l.
+Proof.
+  intros (R & KA & D & M & P & PL & RB & SK & RD & L & SH & DR & ST & HT & SDT) AR SG KT.
+  unfold poll. rewrite R. change (negb (0 =? 0)) with false. cbv iota. rewrite poll_body_S.
+  set (s0 := env_step r s).
+  assert (F0 : res s0 = 0 /\ keep_alive s0 = true /\ dstate s0 = SNone /\ messages s0 = [] /\ c_pl s0 = false /\ rbuf s0 = [] /\
+               sock s0 = IReq x :: more /\ read_disc s0 = false /\ linger s0 = false /\ shutdown s0 = false /\ draining s0 = false /\
+               started s0 = true /\ head_t s0 = head_t s /\ sd_t s0 = sd_t s /\ ka_tm s0 = ka_tm s /\ now s0 = now s + r_adv r /\
+               sig_armed s0 = sig_armed s /\ trace s0 = trace s).
+  { subst s0. unfold env_step. destruct (r_rd r); repeat split; try assumption; try reflexivity.
+    all: change (sock s ++ r_arrive r = IReq x :: more); rewrite SK, AR; reflexivity. }
+  destruct F0 as (f1 & f2 & f3 & f4 & f5 & f6 & f7 & f8 & f9 & f10 & f11 & f12 & f13 & f14 & f15 & f16 & f17 & f18).
+  assert (G1 : poll_graceful (r_signal r) s0 = s0) by (unfold poll_graceful; rewrite f17, SG; reflexivity).
+  assert (G2 : poll_head_timer c s0 = s0).
+  { unfold poll_head_timer, t_ready. rewrite f13. destruct (head_t s); try reflexivity. discriminate. }
+  assert (G3 : poll_ka_timer c s0 = s0) by (unfold poll_ka_timer; rewrite f15, f16, KT; reflexivity).
+  assert (G4 : poll_sd_timer s0 = s0).
+  { unfold poll_sd_timer, t_ready. rewrite f14. destruct (sd_t s); try reflexivity. discriminate. }
+  cbv zeta. rewrite G1, G2, G3, G4, f1, f9, f10. change (negb (0 =? 0)) with false. cbv iota.
+  destruct (read_phase_dispatches c s0 x more f2 f8 f7 f6 f5 f3 f11 f4 f12) as [l5 T5].
+  pose proof (poll_after_read_M c r (read_phase c s0)) as [l6 [T6 _]]. cbv zeta in T6.
+  exists (l5 ++ l6). rewrite T6, T5, f18, <- app_assoc. reflexivity.
 Qed.
